@@ -101,4 +101,27 @@ theorem step_sse_eq_portable (f : Nat) (pe : Bool) (a b c x : Nat) (ha : a < 256
       · rw [if_neg h4, if_neg h4]
 
 
+theorem foldl_ext {α β : Type} (g1 g2 : β → α → β) (l : List α) (h : ∀ acc x, g1 acc x = g2 acc x) :
+    ∀ init, l.foldl g1 init = l.foldl g2 init := by
+  induction l with
+  | nil => intro init; rfl
+  | cons y rest ih => intro init; simp only [List.foldl_cons, h, ih]
+
+theorem lookback_lt (i d : Nat) (out : Array UInt8) :
+    (if i < d then 0 else (out.getD (i - d) 0).toNat) < 256 := by
+  split
+  · omega
+  · exact UInt8.toNat_lt _
+
+/-- `png_filters_sse_eq_portable`: for every filter type, filter distance, current row and previous
+row (of any lengths), the SSE4.2 row filter and the portable one produce the same bytes. -/
+theorem png_filters_sse_eq_portable (f d : Nat) (curr prev : Array UInt8) :
+    runRowSse f d curr prev = runRowPortable f d curr prev := by
+  unfold runRowSse runRowPortable runRowWith
+  apply congrArg Array.toList
+  apply foldl_ext
+  intro out i
+  dsimp only
+  rw [step_sse_eq_portable f prev.isEmpty _ _ _ _ (lookback_lt i d out) (UInt8.toNat_lt _) (lookback_lt i d prev)]
+
 end WuffsVerif.Props.C09
